@@ -28,7 +28,13 @@
           "open"  the property statements leave the outcome open:
                   trail (bytes left after completion), over (final reference
                   overshoots the declared length), ext (32-bit length header)
-     why  name of the last action taken (vacuity/coverage guard)          *)
+     why  name of the last action taken (vacuity/coverage guard)
+
+   Contents: Expand / ExpandSlow (token semantics), Encode / EncodeN / Wrap / Stored,
+   DStep (one decoder action), RunFrom / RunIter / Decode, WellFormed, SizeBound /
+   PeriodBound (C10), StreamOKd / CompressOK (abstract nondeterministic compressor,
+   C08 / C09), Greedy (scaled model of mila's tokeniser), Route / Classify /
+   ResAllowed (outcome classes of the decompression entry points, C11).       *)
 EXTENDS Naturals, Sequences, FiniteSets
 LOCAL SX == INSTANCE SequencesExt      \* FoldLeft (evaluated iteratively by TLC)
 
